@@ -157,7 +157,7 @@ def plan(ctx):
     return [
         ('shard_enum', [('tok', 'A_TOK', L, i, 48) for i in range(48)] +
                        [('envname', 'A_ENV', 3, i, 8) for i in range(8)] +
-                       [('core', 'A_CORE', ctx.pick(3, 5), i, 32) for i in range(32)] +
+                       [('core', 'A_CORE', ctx.pick(3, 4), i, 32) for i in range(32)] +
                        [('cat', 'A_CAT', ctx.pick(2, 3), i, 32) for i in range(32)] +
                        ([('tokcore', 'A_TOK_CORE', 4, i, 64) for i in range(64)] if ctx.thorough else [])),
         ('shard_random', [('rnd', ctx.pick(1200, 30000), i) for i in range(16)]),
